@@ -1691,7 +1691,7 @@ Error Assembler::_emit(InstId inst_id, const Operand_& o0, const Operand_& o1, c
         uint64_t width = o3.as<Imm>().value_as<uint64_t>();
         uint32_t op_size = x ? 64 : 32;
 
-        if (lsb >= op_size || width == 0 || width > op_size)
+        if (lsb >= op_size || width == 0 || width > op_size - lsb)
           goto InvalidImmediate;
 
         uint32_t imm_l = Support::neg(uint32_t(lsb)) & (op_size - 1);
